@@ -921,8 +921,35 @@ static void on_abort(int sig) {
 	raise(sig);
 }
 
-static void run_exec(char **lines, size_t n) {
+#ifdef VS_SCHED
+static void drv_on_deadlock(void) {
+	struct sbuf s = {0};
+	sb_printf(&s, "{\"e\":\"Deadlock\"}");
+	sb_emit(&s);
+}
+#endif
+
+static void run_exec(char **lines, size_t n, long xno) {
+#ifdef VS_SCHED
+	/* every execution runs under the deterministic scheduler: seed, spurious wake-up percentage, mode and number of
+	 * forced preemptions come from the environment; the execution number is added to the seed */
+	unsigned long seed = strtoul(getenv("VS_SEED") ? getenv("VS_SEED") : "1", NULL, 10) + (unsigned long)xno;
+	int spur = atoi(getenv("VS_SPUR") ? getenv("VS_SPUR") : "0");
+	int mode = atoi(getenv("VS_MODE") ? getenv("VS_MODE") : "0");
+	int npre = atoi(getenv("VS_NPRE") ? getenv("VS_NPRE") : "0");
+	vs_on_deadlock = drv_on_deadlock;
+	vs_config(mode, 1, npre, 400, seed);
+	vs_begin(seed, spur);
+#else
+	(void)xno;
+#endif
 	for (size_t i = 0; i < n; i++) run_line(lines[i]);
+#ifdef VS_SCHED
+	int steps = vs_end();
+	struct sbuf s = {0};
+	sb_printf(&s, "{\"e\":\"Sched\",\"steps\":%d,\"maxlive\":%d}", steps, vs_max_threads_seen);
+	sb_emit(&s);
+#endif
 }
 
 int main(int argc, char **argv) {
@@ -957,7 +984,7 @@ int main(int argc, char **argv) {
 			fflush(NULL);
 			pid_t pid = fork();
 			if (pid == 0) {
-				run_exec(lines, nl);
+				run_exec(lines, nl, xno);
 				_exit(0);
 			}
 			int st = 0;
@@ -966,7 +993,7 @@ int main(int argc, char **argv) {
 				  WIFEXITED(st) ? WEXITSTATUS(st) : -1, WIFSIGNALED(st) ? WTERMSIG(st) : 0);
 			sb_emit(&s);
 		} else {
-			run_exec(lines, nl);
+			run_exec(lines, nl, xno);
 		}
 		for (size_t i = 0; i < nl; i++) free(lines[i]);
 		nl = 0;
